@@ -218,6 +218,24 @@ theorem replacer_arguments (t : List Nat) (ha : ascii t) (mt : Caps) (h : capSta
 /-- the offset counts UTF-16 units also after an astral character: "😀x", match of x at byte 4 → "2" -/
 example : (Model.replacerArgs [0xF0, 0x9F, 0x98, 0x80, 120] [some (4, 5)])[1]? = some [50] := by decide
 
+/-- **source_eq.**  The `source` property is the §15.10.4.1 literal form of the pattern: `(?:)` for the
+    empty pattern, every unescaped `/` outside a class escaped. -/
+theorem source_eq (pat : List Nat) : Model.regExpSource pat = Spec.source pat := by
+  have h : ∀ (l : List Nat) (e c : Bool), Model.regExpSourceLoop l e c = Spec.sourceLoop l e c := by
+    intro l; induction l with
+    | nil => intro e c; rfl
+    | cons x xs ih => intro e c; simp only [Model.regExpSourceLoop, Spec.sourceLoop, ih]
+  simp only [Model.regExpSource, Spec.source, h]
+
+/-- **regexp_from_regexp.**  `new RegExp(R)` / `new RegExp(R, undefined)` build a new object from R's pattern
+    and R's flags, `RegExp(R)` returns R itself, a RegExp with flags given is a TypeError (§15.10.3.1, §15.10.4.1). -/
+theorem regexp_from_regexp (pat flags : List Nat) (withNew given : Bool) :
+    Model.fromRegExp pat flags withNew given = Spec.fromRegExp pat flags withNew given := by
+  unfold Model.fromRegExp Spec.fromRegExp Model.storedFlags
+  rfl
+
+example : Spec.source [97, 47, 91, 47, 93, 92, 47] = [97, 92, 47, 91, 47, 93, 92, 47] ∧ Spec.source [] = [40, 63, 58, 41] := by decide
+
 /-! ## 5. end to end: the real matcher satisfies the link -/
 
 /-- **matcher_context_free.**  A pattern without `^`, `\b`, `\B` matches in the suffix `s[k:]` exactly as
